@@ -11,7 +11,7 @@ import errno
 import socket as _real_socket
 
 from .lib import load
-from .transport import JumpWaiter, SimHang
+from .transport import JumpWaiter, SimAbort, SimHang
 
 SHUT_RD, SHUT_WR, SHUT_RDWR = 0, 1, 2
 
@@ -74,6 +74,11 @@ class Pipe(object):
             n = self.put(bytes(mv[:max(0, self.kcap - len(self.buf))]), now) if self.kcap > len(self.buf) else 0
         if n < len(mv):
             self.refs.append(mv[n:])
+            self.ref_bytes = getattr(self, 'ref_bytes', 0) + len(mv) - n
+            self.backlogged = getattr(self, 'backlogged', 0) + 1
+            if len(self.refs) > 20000:
+                # a writer that keeps queueing without ever waiting (only a broken one does): bound the model's own cost
+                raise SimAbort('asyncio write queue holds %d chunks: the writer never waits for the buffer to drain' % len(self.refs))
         return len(mv)
 
     def refill(self, now):
@@ -83,6 +88,7 @@ class Pipe(object):
             mv = refs[0]
             k = min(len(mv), self.kcap - len(self.buf))
             self.buf += bytes(mv[:k])
+            self.ref_bytes -= k
             if self.next_drain is None:
                 self.next_drain = now
             if k < len(mv):
@@ -93,10 +99,15 @@ class Pipe(object):
     def queued(self):
         return len(self.buf) + sum(len(m) for m in getattr(self, 'refs', ()))
 
+    def user_queued(self):
+        """Bytes asyncio itself still holds (what Transport.get_write_buffer_size() reports): the kernel's share is not included."""
+        return getattr(self, 'ref_bytes', 0)
+
     def flush(self, now):
         for mv in getattr(self, 'refs', ()):
             self.buf += bytes(mv)
         self.refs = []
+        self.ref_bytes = 0
         if self.buf:
             link = self.run.link
             chunk = bytes(self.buf)
@@ -443,7 +454,7 @@ class SimAioTransport(asyncio.Transport):
             self.low = low
 
     def get_write_buffer_size(self):
-        return self.pipe.queued()
+        return self.pipe.user_queued()
 
     def get_write_buffer_limits(self):
         return (self.low, self.high)
@@ -454,6 +465,8 @@ class SimAioTransport(asyncio.Transport):
         link = self.run.link
         idx = link.ncalls
         link.ncalls += 1
+        if link.ncalls > link.step_cap:
+            raise SimAbort('transport call cap %d exceeded' % link.step_cap)
         link.writes += 1
         link._rec(idx, 0, 'w', len(data), None, len(data))
         if link.dead is not None:
@@ -469,7 +482,7 @@ class SimAioTransport(asyncio.Transport):
         self.pipe.segs.append([len(data), getattr(t, 'sim_actor', 0) if t is not None else 0])
         self.pipe.put_by_reference(data, self.loop.time())
         self.pipe.pump(self.loop.time())
-        if self.pipe.queued() > self.high and not self.paused_writing:
+        if self.pipe.user_queued() > self.high and not self.paused_writing:
             self.paused_writing = True
             self.pipe.paused += 1
             link.bp_pauses = getattr(link, 'bp_pauses', 0) + 1
@@ -543,7 +556,7 @@ class SimAioTransport(asyncio.Transport):
         now = self.loop.time()
         link = self.run.link
         self.pipe.pump(now)
-        if self.paused_writing and self.pipe.queued() <= self.low:
+        if self.paused_writing and self.pipe.user_queued() <= self.low:
             self.paused_writing = False
             self.protocol.resume_writing()
         if link.cur is None:
